@@ -1980,6 +1980,9 @@ struct Proc {
     found: Vec<Vec<ProcReq>>,
     /// fresh-process trials left for this worker
     budget: u32,
+    /// wall time this worker spent in fresh-process trials (capped: the cross-package representatives give the
+    /// cheap cold-start inputs; this search is for what they do not cover)
+    spent: std::time::Duration,
     /// wrong answers seen per violation class
     per_class: std::collections::BTreeMap<String, u32>,
 }
@@ -2184,11 +2187,14 @@ fn minimise_process_history(fam: &[Entry], pc: &mut Proc, base: &Value, pkg_pref
         v
     };
     let trial = |pc: &mut Proc, v: &Value| -> bool {
-        if pc.budget == 0 {
+        if pc.budget == 0 || pc.spent.as_secs() >= if pc.thorough { 600 } else { 40 } {
             return false;
         }
         pc.budget -= 1;
-        answer_in_fresh_process(v).as_deref() == Some(wrong)
+        let t0 = std::time::Instant::now();
+        let same = answer_in_fresh_process(v).as_deref() == Some(wrong);
+        pc.spent += t0.elapsed();
+        same
     };
     // 1. cold start, the package history as minimised in this process
     let v0 = with(json!([]), None);
@@ -2483,6 +2489,70 @@ fn cross_package_reps(fam: &[Entry], rep: &mut Report, seed: u64) {
                 );
             }
             Some(_) => {}
+        }
+    }
+}
+
+/// **Bound-literal class representatives** (run first, whatever the seed): a literal below a type constructor
+/// in a filtermap's payload whose type variable *another statement binds* (`reject Some(7)` beside
+/// `reject Some(p0)`, `p0: u8`). The signature then carries, at depth, a literal variable that is bound — the
+/// function is compiled at the bound type, so the true Rust type has `u8` there and the default (`i32` / `f64`)
+/// must be refused: the gate has to *resolve* a component before it considers the default (the generated
+/// payloads only ever leave their literals unconstrained, where both orders agree).
+fn bound_literal_reps(fam: &[Entry], rt: &Runtime<NoCtx>, rep: &mut Report, seed: u64) {
+    let reps: [(&str, &str, &str, &[&str]); 8] = [
+        ("int-below-Option", "filtermap f(p0: u8) { if true { accept p0 } else { if true { reject Some(7) } else { reject Some(p0) } } }",
+         "fn(u8) -> Verdict<u8, Option<u8>>", &["fn(u8) -> Verdict<u8, Option<i32>>", "fn(u8) -> Verdict<u8, Option<i64>>"]),
+        ("float-below-Option", "filtermap f(p0: u8) { let y: f32 = 0.5; if true { accept p0 } else { if true { reject Some(0.25) } else { reject Some(y) } } }",
+         "fn(u8) -> Verdict<u8, Option<f32>>", &["fn(u8) -> Verdict<u8, Option<f64>>"]),
+        ("int-below-List", "filtermap f(p0: u8) { let y: u32 = 5; if true { accept p0 } else { if true { reject [7, 8] } else { reject [y] } } }",
+         "fn(u8) -> Verdict<u8, List<u32>>", &["fn(u8) -> Verdict<u8, List<i32>>", "fn(u8) -> Verdict<u8, List<u64>>"]),
+        ("float-below-List-List", "filtermap f(p0: u8) { let y: f32 = 0.5; if true { accept p0 } else { if true { reject [[0.25]] } else { reject [[y]] } } }",
+         "fn(u8) -> Verdict<u8, List<List<f32>>>", &["fn(u8) -> Verdict<u8, List<List<f64>>>"]),
+        ("int-below-Option-Option", "filtermap f(p0: u8) { let y: i64 = 5; if true { accept p0 } else { if true { reject Some(Some(1)) } else { reject Some(Some(y)) } } }",
+         "fn(u8) -> Verdict<u8, Option<Option<i64>>>", &["fn(u8) -> Verdict<u8, Option<Option<i32>>>", "fn(u8) -> Verdict<u8, Option<Option<u32>>>"]),
+        ("int-below-Option-both-sides", "filtermap f(p0: bool) { let y: i64 = 5; if p0 { accept Some(1) } else { if true { accept Some(y) } else { reject Some(y) } } }",
+         "fn(bool) -> Verdict<Option<i64>, Option<i64>>", &["fn(bool) -> Verdict<Option<i32>, Option<i32>>"]),
+        ("int-below-Result", "filtermap f(p0: u8) { let y: i64 = 5; if true { accept p0 } else { if true { reject Ok(1) } else { if true { reject Ok(y) } else { reject Err(0.5) } } } }",
+         "fn(u8) -> Verdict<u8, Result<i64, f64>>", &["fn(u8) -> Verdict<u8, Result<i32, f64>>", "fn(u8) -> Verdict<u8, Result<f64, i32>>"]),
+        ("int-accept-side", "filtermap f() { let y: i64 = 5; if true { accept Some(1) } else { accept Some(y) } }",
+         "fn() -> Verdict<Option<i64>, ()>", &["fn() -> Verdict<Option<i32>, ()>", "fn() -> Verdict<Option<u32>, ()>"]),
+    ];
+    for (k, (class, src, true_ty, wrong)) in reps.iter().enumerate() {
+        let mut pkg = match compile(src, rt) {
+            Ok(Ok(p)) => p,
+            _ => {
+                rep.mismatch("a bound-literal representative does not compile (the generator's model of the language is wrong)", json!({"script": src}));
+                continue;
+            }
+        };
+        // the true type first and last: a refusal or a grant in between must not change it
+        let asks: Vec<(&str, bool)> = std::iter::once((*true_ty, true)).chain(wrong.iter().map(|w| (*w, false))).chain(std::iter::once((*true_ty, true))).collect();
+        let mut history: Vec<Value> = vec![];
+        for (ty, expected_ok) in asks {
+            let Some(e) = fam.iter().find(|e| e.show() == ty) else {
+                rep.mismatch("a bound-literal representative asks for a Rust type outside the family", json!({"type": ty}));
+                continue;
+            };
+            let real = canon(&(e.probe)(&mut pkg, "f"));
+            rep.evaluations += 1;
+            let outcome = if real == "ok" { "granted" } else if real == "panic" { "panic" } else { "refused" };
+            rep.hist("bound-literal", format!("{}: {outcome}", if expected_ok { "true signature" } else { "the literal's default instead of the bound type" }));
+            rep.class(format!("bound-literal|{class}|{expected_ok}|{outcome}"));
+            if (real == "ok") != expected_ok || real == "panic" {
+                let kind = if real == "panic" { "panics" } else if expected_ok { "refuses-true-signature" } else { "accepts-wrong-signature" };
+                rep.violation(
+                    if expected_ok { "get_function refused a function under the documented image of its signature" } else { "get_function returned a callable handle under a Rust type that is not the image of the script signature" },
+                    &format!("{kind}:filtermap:ret:bound-literal-below-constructor:{class}"),
+                    json!({
+                        "seed": seed, "index": format!("bound-literal representative {k}"), "env": 0, "script": src, "function": src, "name": "f", "rust_type": ty,
+                        "label": format!("bound-literal:{class}"),
+                        "expected": if expected_ok { "ok".to_string() } else { format!("refused (ret: the literal below the constructor is bound to another type by the second statement; the function is compiled at {true_ty})") },
+                        "real": real, "history": history.clone(), "history_kind": if history.is_empty() { "none" } else { "whole prefix" },
+                    }),
+                );
+            }
+            history.push(json!({"name": "f", "rust_type": ty}));
         }
     }
 }
@@ -2944,8 +3014,9 @@ fn main() {
             }
             if from == 0 {
                 cross_package_reps(&fam, &mut rep, seed);
+                bound_literal_reps(&fam, &rts[0], &mut rep, seed);
             }
-            let mut pc = Proc { seed, thorough, log: vec![], class_dep: Default::default(), found: vec![], budget: 160, per_class: Default::default() };
+            let mut pc = Proc { seed, thorough, log: vec![], class_dep: Default::default(), found: vec![], budget: 160, spent: Default::default(), per_class: Default::default() };
             for i in from..from + n {
                 println!("START {i}");
                 run_script(&fam, &rts, &mut drv, &mut rep, &mut pc, i);
